@@ -16,6 +16,7 @@ From PV Require Import Extract.RunC16.
 From PV Require Import Extract.RunC14.
 From PV Require Import Extract.RunC07.
 From PV Require Import Extract.RunTAB.
+From PV Require Import Extract.RunGLR.
 Import ListNotations.
 Local Open Scope N_scope.
 
@@ -210,5 +211,9 @@ Definition run (cmd : N) (arg : sx) : sx :=
   | 142 => run_c14_2 arg
   | 143 => run_c14_3 arg
   | 220 | 221 | 222 | 223 | 224 => run_tab cmd arg
+  | 210 => run_glr_210 arg
+  | 211 => run_glr_211 arg
+  | 212 => run_glr_212 arg
+  | 213 => run_glr_213 arg
   | _ => L [A 999999]
   end.
